@@ -19,7 +19,10 @@ Init == l = 1 /\ bad = 0 /\ rejected = 0
 Judge(c) ==
   LET ref  == ReadMsg(c.proto, c.type, c.payload)
       soft == SoftMsg(c.proto, c.type, c.payload)
-  IN IF ~c.obs.ok THEN "rejected"                       \* a payload may always be rejected (C05)
+  IN IF ~c.obs.ok
+     THEN \* a payload may be rejected (C05), except the ones made of documented values only, whose
+          \* announced stride (>= the known layout) has to be honoured
+          IF c.must THEN "StrideNotHonoured" ELSE "rejected"
      ELSE IF MatchMsg(ref, soft, c.obs.msg) THEN "ok"
      ELSE IF soft THEN "DefinedValueForNA" ELSE "Misdecoded"
 
